@@ -11,10 +11,13 @@ represented by facts (`declaredOversize`, `Payload.rejected`, `stall`, routing r
 Layer order in `router` (outermost first): `map_413` · `HandleErrorLayer` · `TimeoutLayer` ·
 `ConcurrencyLimitLayer` · `RequestBodyLimitLayer` · route / method router / fallback.
 
-`respond` is the code as it exists after `fix: answer unknown paths and wrong methods with the
-structured error body` (378f311): the response middleware rewrites the router's own 404 / 405
-(no `Content-Type`) into the error body.  `respondLegacy` keeps the behaviour before that
-commit (empty bodies) as documentation of the original defect.
+`respond` is the code as it exists after three repairs in /repo:
+378f311 (the response middleware rewrites the router's own 404 / 405 into the error body),
+771419c (`parse_json` keeps the extractor's 413 and `/add` maps the body stream's "length limit
+exceeded" error to `413 body_too_large`) and c4eccfe (`/delete` runs its library calls inside
+`spawn_blocking`, join error ↦ `500 delete_join`).  `respondLegacy` keeps the service before
+these commits (empty 404/405 bodies, 400 for streamed oversize, no response on a `/delete`
+panic) as documentation of the original defects.
 -/
 namespace SL.Http
 
@@ -51,7 +54,8 @@ inductive AddBody
   | docs             -- ≥ 1 document, all lines are JSON objects
   | empty            -- no document at all (`queued: 0` without touching the writer)
   | badLine          -- a line is not JSON or not an object
-  | readErr          -- the stream fails (limit reached while streaming, invalid UTF-8, truncated)
+  | limitErr         -- the stream fails with "length limit exceeded" (body over the limit while streaming)
+  | readErr          -- the stream fails otherwise (invalid UTF-8, truncated)
   | stall            -- the client never completes the body: the timeout layer fires
 deriving Repr, DecidableEq
 
@@ -102,7 +106,7 @@ inductive Kind
   | addFailed | addJoin | missingOrInvalidInput | deleteFailed
   | commitJoin | commitFailed | refreshJoin | refreshFailed | compactJoin | compactFailed
   | searchJoin | searchFailed
-  | notFound | methodNotAllowed
+  | notFound | methodNotAllowed | deleteJoin
 deriving Repr, DecidableEq
 
 structure Resp where
@@ -116,10 +120,12 @@ def errResp (status : Nat) (k : Kind) : Resp := ⟨status, .errorJson, k⟩
 /-- `handle_middleware_error` for `tower::timeout::error::Elapsed` -/
 def timeoutResp : Resp := errResp 504 .timeout
 
-/-- `parse_json(payload)?` as the first step of a handler -/
+/-- `parse_json(payload)?` as the first step of a handler: the extractor's 413 (body over the
+limit while buffering) is kept, every other rejection becomes `400 invalid_request` -/
 def jsonExtract (f : Facts) (k : Resp) : Resp :=
   match f.payload with
   | .stall => timeoutResp
+  | .rejected .lengthLimit => errResp 413 .bodyTooLarge
   | .rejected _ => errResp 400 .invalidRequest
   | .ok => k
 
@@ -138,18 +144,18 @@ def blocking (f : Facts) (join : Kind) (failStatus : Nat) (fail : Kind) : Resp :
   | .ok => okResp
 
 /-- the writer part shared by `/add` and `/bulk` (inside `spawn_blocking`): `index.writer()`,
-then `add_document` per document -/
+then `add_documents` -/
 def ingest (f : Facts) : Resp :=
   match f.core with
   | .panic => errResp 500 .addJoin
   | .err => if f.writerErr then errResp 500 .writerOpen else errResp 400 .addFailed
   | .ok => if f.writerErr then errResp 500 .writerOpen else okResp
 
-/-- `/delete` after validation: `index.writer()`, `delete_documents` — **not** inside
-`spawn_blocking`, so a panic unwinds the connection task and nothing is sent -/
+/-- `/delete` after validation: `index.writer()`, `delete_documents`, inside `spawn_blocking`
+like the other write handlers (c4eccfe) -/
 def deleteWork (f : Facts) : Resp :=
   match f.core with
-  | .panic => ⟨0, .noResponse, .none⟩
+  | .panic => errResp 500 .deleteJoin
   | .err => if f.writerErr then errResp 500 .writerOpen else errResp 400 .deleteFailed
   | .ok => if f.writerErr then errResp 500 .writerOpen else okResp
 
@@ -157,6 +163,7 @@ def deleteWork (f : Facts) : Resp :=
 def addWork (f : Facts) : Resp :=
   match f.addBody with
   | .stall => timeoutResp
+  | .limitErr => errResp 413 .bodyTooLarge
   | .readErr => errResp 400 .readBody
   | .badLine => errResp 400 .invalidDocument
   | .empty => okResp
@@ -197,13 +204,65 @@ def respond (r : Route) (f : Facts) : Resp :=
     | .wrongMethod _ => errResp 405 .methodNotAllowed
     | .hit e => handler e f
 
-/-- the service before 378f311: axum's fallback and method router answered with empty bodies -/
+/-! ### the service before the repairs (documentation of the original defects) -/
+
+/-- before 771419c: every extractor rejection, the 413 included, became `400 invalid_request` -/
+def jsonExtractLegacy (f : Facts) (k : Resp) : Resp :=
+  match f.payload with
+  | .stall => timeoutResp
+  | .rejected _ => errResp 400 .invalidRequest
+  | .ok => k
+
+/-- before c4eccfe: not inside `spawn_blocking`; a panic unwound the connection task -/
+def deleteWorkLegacy (f : Facts) : Resp :=
+  match f.core with
+  | .panic => ⟨0, .noResponse, .none⟩
+  | .err => if f.writerErr then errResp 500 .writerOpen else errResp 400 .deleteFailed
+  | .ok => if f.writerErr then errResp 500 .writerOpen else okResp
+
+/-- before 771419c: "length limit exceeded" was reported like any other read error -/
+def addWorkLegacy (f : Facts) : Resp :=
+  match f.addBody with
+  | .stall => timeoutResp
+  | .limitErr => errResp 400 .readBody
+  | .readErr => errResp 400 .readBody
+  | .badLine => errResp 400 .invalidDocument
+  | .empty => okResp
+  | .docs => ingest f
+
+def handlerLegacy (e : Endpoint) (f : Facts) : Resp :=
+  match e with
+  | .healthz => okResp
+  | .init =>
+    jsonExtractLegacy f <|
+      if f.manifestExists then errResp 409 .indexExists
+      else blocking f .initJoin 400 .initFailed
+  | .add => requireIndex f (addWorkLegacy f)
+  | .bulk =>
+    jsonExtractLegacy f <|
+      if f.inputBad then errResp 400 .missingOrInvalidInput
+      else requireIndex f (ingest f)
+  | .delete =>
+    jsonExtractLegacy f <|
+      if f.inputBad then errResp 400 .missingOrInvalidInput
+      else requireIndex f (deleteWorkLegacy f)
+  | .commit => requireIndex f (blocking f .commitJoin 500 .commitFailed)
+  | .refresh => requireIndex f (blocking f .refreshJoin 500 .refreshFailed)
+  | .compact => requireIndex f (blocking f .compactJoin 500 .compactFailed)
+  | .search =>
+    jsonExtractLegacy f <|
+      if f.inputBad then errResp 400 .invalidLimit
+      else requireIndex f (blocking f .searchJoin 400 .searchFailed)
+  | .inspect => requireIndex f okResp
+  | .stats => requireIndex f okResp
+
+/-- the service before 378f311 / 771419c / c4eccfe -/
 def respondLegacy (r : Route) (f : Facts) : Resp :=
   if f.declaredOversize then errResp 413 .bodyTooLarge
   else match r with
     | .unknownPath => ⟨404, .empty, .none⟩
     | .wrongMethod _ => ⟨405, .empty, .none⟩
-    | .hit e => handler e f
+    | .hit e => handlerLegacy e f
 
 /-- the property's shape predicate on one response -/
 def wellFormed (x : Resp) : Bool :=
